@@ -1,4 +1,5 @@
 import Driver.Ops.Run
+import Driver.Ops.Balance
 import Driver.Ops.Rematch
 /-! Line-protocol driver of the model: one JSON case per input line, one JSON answer per line.
     To add an op: write `Driver/Ops/<Name>.lean`, import it here, add one line to `opTable`
@@ -7,7 +8,8 @@ open Lean Tackler Codec
 
 /-- output kinds of op `run` -/
 def outputTable : List (String × Ops.OutputFn) := [
-  ("txns", Ops.outTxns)
+  ("txns", Ops.outTxns),
+  ("balance", Ops.outBalance)
 ]
 
 /-- ops -/
